@@ -103,8 +103,6 @@ for kern, fn in [("fast", ["geometry::kernel::FastKernel::orientation", "geometr
     h("C12", "c12", f"c12_orient3d_{kern}_g1", "thorough", 4000,
       f"D=3 orientation ({kern} kernel): all 3^12 = 531441 quadruples of points in {{-1,0,1}}^3: result = sign of the exact determinant",
       fn + LU4)
-h("C12", "c12", "c12_orient2d_fast_g8", "thorough", 6000,
-  "D=2 orientation (fast kernel): all 17^6 triples of points with integer coordinates in [-8,8]", LU3)
 h("C12", "c12", "c12_orient2d_fast_dyadic_g2", "thorough", 3000,
   "D=2 orientation (fast kernel) on the dyadic grids 2^-k*[-2,2]^2, k symbolic in 0..=20: exact sign where |det| >= 1e-10, "
   "DEGENERATE where det = 0 exactly, never the opposite sign inside the documented dead band", LU3)
@@ -126,8 +124,7 @@ for form, tier, fns in [
           "degenerate simplex => Err or BOUNDARY (cube c of 9; the 9 cubes together cover the whole G=1 grid)", fns + LU4 + LU3)
 for nm, form, edge in [("fast_g3_edge_a", "fast", "(0,0)-(1,0)"), ("fast_g3_edge_b", "fast", "(-3,2)-(3,-1)"),
                        ("lifted_g3_edge_a", "lifted", "(0,0)-(1,0)"), ("robust1_g3_edge_a", "robust stage 1", "(0,0)-(1,0)"),
-                       ("robust3_g3_edge_a", "robust stage 3 (conditioned)", "(0,0)-(1,0)"),
-                       ("robust3_g3_edge_b", "robust stage 3 (conditioned)", "(-3,2)-(3,-1)")]:
+                       ("robust3_g3_edge_a", "robust stage 3 (conditioned)", "(0,0)-(1,0)")]:
     h("C12", "c12", f"c12_insphere2d_{nm}", "thorough", 3000,
       f"D=2 in-sphere ({form}): simplex edge fixed at {edge}, third vertex and query range over all 7^4 = 2401 integer points of "
       "[-3,3]^2 x [-3,3]^2: exact sign; degenerate => Err or BOUNDARY", LU4 + LU3)
